@@ -17,6 +17,8 @@ for d in sorted(glob.glob("/verif/seeded/*"), key=lambda x: (os.path.basename(x)
     for p, v in sorted(meta.get("detected_by", {}).items()):
         if v.get("exit") == 1:
             rules = sorted(set(r.split()[0] for r in v.get("rules", [])))
+            if p == "C01" and len(rules) > 1 and "BB-13" in rules and all("SetMin" in r or "SetExtrude" in r for r in v.get("rules", []) if r.startswith("BB-13 ")):
+                rules.remove("BB-13")  # the known findings, listed by older runs of the refresh tool
             by.append(f"{p}: {','.join(rules)}")
     tot += 1
     det += 1 if by else 0
